@@ -41,6 +41,8 @@ POOL_CORE = [
     '(let ([q {n}]) (print (+ q x)))', '(print (if (> x {n}) "big" "small"))', '(print (for/list [i (range 3)] (* i x)))',
     '(defun g [a b] (if (> a b) a b))', '(print (g x {n}))', '(print (reverse l))', "(print (case {n} [1 'one] [2 'two] [default 'many]))",
     '(print "s" {n} #t)', '(when (> x 0) (print "pos"))', '(inc x)', '(print (sum l))',
+    # quasiquote evaluated at run time, with unquote and splice
+    "(print `(1 ,@(list 2 x) {n}))", "(print `(a ,x ,@'(b c)))", "(print (eval `(+ ,x ,@(list {n} 1))))",
 ]
 POOL_MACRO = [
     ('(defmacro twice [e] `(do ,e ,e))', '(twice (print "t{n}"))'),
@@ -55,11 +57,27 @@ POOL_MACRO = [
     # the macro wraps its operand in a new scope; the operand assigns to an enclosing variable
     ('(defmacro scoped [e] `(let ([tmp__ 1]) ,e))', '(let ([acc 0]) (scoped (set [acc (+ acc {n})])) (print acc))'),
     ('(defmacro in-fn [e] `((fn [] ,e)))', '(do (in-fn (set [x (+ x {n})])) (print x))'),
+    # expansion has an effect / reads an earlier definition: it must happen when the program runs, on every path
+    ('(defmacro traced [e] (print "expanding") e)', '(traced (print "body{n}"))'),
+    ('(defmacro plusx [e] (list (quote +) e x))', '(print (plusx {n}))'),
+    # templates with a splice: the compiled file still contains ,@ when the macro is used in a later form
+    ('(defmacro mylist args `(list ,@args))', '(print (mylist 1 {n} x))'),
+    ('(defmacro all-of args `(&& ,@args #t))', '(print (all-of (> x 0) (< x 100) {n}))'),
+    ('(defmacro prog2 [a b] `(do ,@(list a b) (print "done{n}")))', '(prog2 (print "p") (print x))'),
 ]
 POOL_TRACE = [
     '(print INDEX " " TS)', '(step {k})', '(print top.a)', '(print (find (= top.clk 1)))', '(print (count top.clk))',
     '(print top.a@1)', '(whenever (= top.clk 1) (print INDEX))', '(print (in-scope "top" ~b))', '(step-until (= top.clk 1))',
     '(print (timeframe (step 1) INDEX) " " INDEX)', '(defsig v (+ top.a 1))', '(print v)', '(print (rising top.clk))',
+]
+
+
+# always-run programs: every user macro of the pool defined and used in later forms (all four paths), run-time quasiquotes
+ALWAYS = [
+    [d for d, _ in POOL_MACRO[:5]] + [u.replace('{n}', '3') for _, u in POOL_MACRO[:5]] + ['(print x " " y)'],
+    [POOL_MACRO[0][0]] + [d for d, _ in POOL_MACRO[5:10]] + [u.replace('{n}', '4') for _, u in POOL_MACRO[5:10]],
+    [d for d, _ in POOL_MACRO[10:]] + ['(set [x (+ x 10)])'] + [u.replace('{n}', '5') for _, u in POOL_MACRO[10:]] +
+    ["(print `(1 ,@(list 2 x) 7))", "(print `(a ,x ,@'(b c)))", "(print (eval `(+ ,x ,@(list 2 1))))"],
 ]
 
 
@@ -165,6 +183,8 @@ def run(tier, seed, replay=None):
         if with_trace:
             vcd, info = gen.simple_trace(rng, n=rng.randrange(3, 8), scopes={'top': ['clk', 'a', 'b']})
         forms, used = gen_program(rng, with_trace)
+        if k < len(ALWAYS):
+            forms, used = ['(define x 1)', '(define y 2)'] + ALWAYS[k] + (['(print "pos " INDEX)'] if with_trace else []), True
         progs.append((forms, used, vcd))
         jobs.append((k, forms, vcd, root))
     with concurrent.futures.ThreadPoolExecutor(max_workers=lib.NPROC) as ex:
